@@ -260,11 +260,16 @@ def replay_sequence(run, ct, rng, pool, seq, cfg):
                     rebuilt.set_default_objective(opt.minimize)
                     sc = rebuilt.get_score()
                     if abs(sc - answer["score"]) > 1e-9 * max(1, abs(sc)):
-                        creator = raw and [r for r in raw if r.get("kind") == "query" and r.get("ran") and r.get("answer_run") == answer["verif_run"]]
+                        # the pool members sharing the query's fingerprint identify the input class (F11: same wiring,
+                        # sizes sitting on other edges)
+                        sharing = {pool[i].kind for i in range(len(pool)) if hashes[i] == hashes[q - 1]}
+                        fam = {"base", "perm-within-tensors", "perm-output"}
+                        pair_tag = {"pair:same-wiring-sizes-on-other-edges"} \
+                            if ("wiring-renamed-sizes-kept" in sharing and sharing <= fam | {"wiring-renamed-sizes-kept"}) else set()
                         _viol(f"stored score {answer['score']:.6f} is not the score {sc:.6f} of the answer rebuilt for the "
                                       f"query {net.kind} (eq={net.eq()} sizes={net.c_sizes()}): entry shared between "
-                                      f"contractions for which it is not equally valid", desc,
-                                      tags=tags | {"stored-score-invalid-for-query"})
+                                      f"contractions for which it is not equally valid (sharing the fingerprint: {sorted(sharing)})", desc,
+                                      tags=tags | {"stored-score-invalid-for-query"} | pair_tag)
         return raw, viol, rec.runs, rec.last_run_con
 
     try:
